@@ -38,6 +38,14 @@ KeyText(x, e) == x[e].v
 KeyOk(x, e) == x[e].k = "S" /\ ~NullLikeNode(x, e)
 NoRepeat(x, es) == \A i, j \in 1..Len(es) : i # j => KeyText(x, es[i]) # KeyText(x, es[j])
 
+(* values under keys the target ignores are still read (and discarded): a repeated mapping key inside them is an error *)
+RECURSIVE NoDupBelow(_, _)
+NoDupBelow(x, i) ==
+  CASE x[i].k = "SS" -> \A j \in 1..Len(Items(x, i)) : NoDupBelow(x, Items(x, i)[j])
+    [] x[i].k = "MS" -> LET es == Entries(x, i) IN
+                        /\ \A a, b \in 1..Len(es) : (a # b /\ x[es[a]].k = "S" /\ x[es[b]].k = "S") => KeyText(x, es[a]) # KeyText(x, es[b])
+                        /\ \A a \in 1..Len(es) : NoDupBelow(x, es[a]) /\ NoDupBelow(x, ValOf(x, es[a]))
+    [] OTHER -> TRUE
 StructAt(S, x, i) ==
   IF x[i].k # "MS" /\ ~NullLikeNode(x, i) THEN ERRN ELSE
   LET es == IF x[i].k = "MS" THEN Entries(x, i) ELSE <<>>
@@ -48,7 +56,8 @@ StructAt(S, x, i) ==
                   ELSE Faithful(S.ss[j], x, ValOf(x, o[1]))
       vs == [j \in 1..nf |-> Field(j)]
       badKey == \E j \in 1..Len(es) : ~KeyOk(x, es[j])
-  IN IF badKey \/ ~NoRepeat(x, es) \/ AnyErr(vs) THEN ERRN ELSE V("Struct", "", vs)
+      badIgnored == \E j \in 1..Len(es) : x[es[j]].k = "S" /\ (\A n \in 1..nf : KeyText(x, es[j]) # FieldNames[n]) /\ ~NoDupBelow(x, ValOf(x, es[j]))
+  IN IF badKey \/ badIgnored \/ ~NoRepeat(x, es) \/ AnyErr(vs) THEN ERRN ELSE V("Struct", "", vs)
 
 TupAt(ss, x, i, ctor) ==
   IF x[i].k # "SS" THEN ERRN ELSE
